@@ -23,6 +23,10 @@ pub enum CutKind {
     /// orderly close as a TCP peer's FIN looks at first: end-of-stream on read while writes
     /// towards it still succeed, so only the socket's own bookkeeping can keep it out
     CloseStillWritable,
+    /// the peer stays connected but, at a frame boundary, sends bytes that are not ZMTP (a
+    /// command frame whose name length points past the frame): the connection ends by a
+    /// protocol error found by the socket itself
+    ProtocolError,
 }
 
 impl CutKind {
@@ -32,6 +36,7 @@ impl CutKind {
             CutKind::Reset => "reset",
             CutKind::WriteError => "write-error",
             CutKind::CloseStillWritable => "orderly-close-still-writable",
+            CutKind::ProtocolError => "protocol-error",
         }
     }
 }
@@ -63,7 +68,8 @@ pub fn victim_stream(kind: Kind, msgs: &[Vec<usize>]) -> (Vec<u8>, usize, Vec<us
     if kind.can_recv() && kind != Kind::Req || kind == Kind::Pub {
         for (seq, lens) in msgs.iter().enumerate() {
             let (w, e) = if kind == Kind::Pub {
-                // a subscriber's traffic towards a PUB: subscription messages
+                // a subscriber's traffic towards a PUB: subscription messages; every one of
+                // them is a prefix of the tail's "vvvv-<n>" publishes
                 let mut t = vec![1u8];
                 t.extend_from_slice(&vec![b'v'; lens.first().copied().unwrap_or(0).min(3)]);
                 (vec![t], None)
@@ -147,13 +153,24 @@ pub fn cut_outcome(c: &CutCase) -> Outcome {
             }
             // victim
             let (stream, hs, ends, vexpect) = victim_stream(kind, &c.victim_msgs);
-            let pos = if c.cut == CutKind::WriteError { stream.len() } else { c.pos.min(stream.len()) };
+            let pos = match c.cut {
+                CutKind::WriteError => stream.len(),
+                // at a message boundary after the handshake
+                CutKind::ProtocolError => std::iter::once(hs).chain(ends.iter().copied()).filter(|e| *e <= c.pos.max(hs)).last().unwrap_or(hs),
+                _ => c.pos.min(stream.len()),
+            };
             let victim = sim.link();
             victim.to_lib.deposit(&stream[..pos]);
             match c.cut {
                 CutKind::Close | CutKind::CloseStillWritable => victim.to_lib.end_after_all(ReadEnd::Eof),
                 CutKind::Reset => victim.to_lib.end_after_all(ReadEnd::Err(std::io::ErrorKind::ConnectionReset)),
                 CutKind::WriteError => {}
+                CutKind::ProtocolError => {
+                    // command frame: name length 5, one byte of name; then a well-formed message
+                    // that must never surface
+                    victim.to_lib.deposit(&[0x04, 0x02, 0x05, b'A']);
+                    victim.to_lib.deposit(&refcodec::encode_message(&wire_and_expect(kind, 98, 0, &[4], false).0));
+                }
             }
             let va = sim.attach(s, &victim);
             if c.split > 0 && c.split < pos {
@@ -168,7 +185,7 @@ pub fn cut_outcome(c: &CutCase) -> Outcome {
             }
             let admitted = matches!(sim.out(va), Some(Out::Attach(Ok(_))));
             let vid: Option<Vec<u8>> = if let Some(Out::Attach(Ok(id))) = sim.out(va) { Some(id.clone()) } else { None };
-            if c.cut != CutKind::CloseStillWritable {
+            if !matches!(c.cut, CutKind::CloseStillWritable | CutKind::ProtocolError) {
                 let kind = match c.write_err % 4 {
                     0 => std::io::ErrorKind::BrokenPipe,
                     1 => std::io::ErrorKind::ConnectionReset,
@@ -212,7 +229,12 @@ pub fn cut_outcome(c: &CutCase) -> Outcome {
             let mut ok_sends = 0usize;
             let mut req_answered: Vec<usize> = vec![0; healthy.len()];
             let mut published = 0usize;
-            let observed = |victim: &Link| victim.to_lib.end_reported() > 0 || victim.from_lib.failed_writes() > 0;
+            let protocol_error = c.cut == CutKind::ProtocolError;
+            // a protocol error has been observed once recv has reported it or the reading side let
+            // go of the connection (the bad bytes may sit unread in the framed reader's buffer
+            // long before that: reading them is not yet decoding them). A PUSH never reads from
+            // its peers, so it cannot observe one.
+            let observed = |victim: &Link, nerr: usize| victim.to_lib.end_reported() > 0 || victim.from_lib.failed_writes() > 0 || (protocol_error && kind != Kind::Push && (nerr > 0 || victim.to_lib.reader_dropped()));
             for round in 0..(c.rounds + 2) {
                 // healthy peers talk
                 if kind.fair_queue_recv() {
@@ -222,25 +244,40 @@ pub fn cut_outcome(c: &CutCase) -> Outcome {
                         l.raw_send_now(&w);
                         healthy_sent[hi].push(e.unwrap());
                     }
-                    match simx::recv_until_pending(&mut sim, s, 40).await {
-                        Ok(res) => {
-                            for r in res {
-                                match r {
-                                    Ok(m) => {
-                                        oks.push(m);
-                                        if kind == Kind::Rep {
-                                            // answer so that the next request is in turn
-                                            let a = sim.send(s, &[b"rep".to_vec()]);
-                                            let _ = sim.run(a).await;
+                    // recv until pending; a REP answers each request before asking for the next
+                    for _ in 0..40 {
+                        let r = sim.recv(s);
+                        match sim.run(r).await {
+                            Ok(Some(Out::Recv(Ok(m)))) => {
+                                oks.push(m);
+                                if kind == Kind::Rep {
+                                    // a reply to a healthy requester must arrive there (and only there)
+                                    let from = oks.last().and_then(|m| m.first()).and_then(|t| t.iter().position(|c| *c == b'-').and_then(|d| std::str::from_utf8(&t[1..d]).ok()).and_then(|x| x.parse::<usize>().ok()));
+                                    let before: Vec<usize> = healthy.iter().map(|(l, _)| l.lib_messages_prefix().map(|x| x.0.len()).unwrap_or(0)).collect();
+                                    let reply = vec![format!("rep-{}", oks.len()).into_bytes(), vec![], b"r".to_vec()];
+                                    let a = sim.send(s, &reply);
+                                    let res = sim.run(a).await;
+                                    if let Some(hi) = from.filter(|h| *h < healthy.len()) {
+                                        let mut want = vec![vec![]];
+                                        want.extend(reply.clone());
+                                        let got = healthy[hi].0.lib_messages_prefix().map(|x| x.0).unwrap_or_default();
+                                        let grew: Vec<usize> = healthy.iter().enumerate().filter(|(i, (l, _))| l.lib_messages_prefix().map(|x| x.0.len()).unwrap_or(0) != before[*i]).map(|x| x.0).collect();
+                                        if !matches!(res, Ok(Some(Out::Send(Ok(()))))) || grew != vec![hi] || got.last() != Some(&want) {
+                                            fail!(f, format!("C16/REP/{}/healthy-traffic-disturbed", ck), "reply to healthy requester {}: send returned {:?}, connections that received a message: {:?}", hi, res.as_ref().map(|o| o.as_ref().map(|o| o.err_text().map(|s| s.to_string()))), grew);
                                         }
                                     }
-                                    Err(e) => errs.push(e),
                                 }
                             }
-                        }
-                        Err(e) => {
-                            fail!(f, format!("C16/{}/{}/spin", who, ck), "recv does not settle after the cut: {}", e);
-                            return (f, classes);
+                            Ok(Some(Out::Recv(Err(e)))) => errs.push(e.text),
+                            Ok(Some(_)) => unreachable!(),
+                            Ok(None) => {
+                                sim.cancel(r);
+                                break;
+                            }
+                            Err(e) => {
+                                fail!(f, format!("C16/{}/{}/spin", who, ck), "recv does not settle after the cut: {:?}", e);
+                                return (f, classes);
+                            }
                         }
                     }
                 }
@@ -249,7 +286,7 @@ pub fn cut_outcome(c: &CutCase) -> Outcome {
                     Kind::Push | Kind::Dealer => {
                         let n = healthy.len() + 1;
                         for i in 0..n + 1 {
-                            let was_observed = observed(&victim);
+                            let was_observed = observed(&victim, errs.len());
                             let vbefore = victim.lib_traffic_len();
                             let m: Frames = vec![format!("s{}-{}", round, i).into_bytes(), vec![], b"x".to_vec()];
                             let a = sim.send(s, &m);
@@ -282,7 +319,7 @@ pub fn cut_outcome(c: &CutCase) -> Outcome {
                     Kind::Req => {
                         let n = healthy.len() + 1;
                         for i in 0..n + 1 {
-                            let was_observed = observed(&victim);
+                            let was_observed = observed(&victim, errs.len());
                             let vbefore = victim.lib_traffic_len();
                             let m: Frames = vec![format!("q{}-{}", round, i).into_bytes(), vec![], b"x".to_vec()];
                             let a = sim.send(s, &m);
@@ -349,12 +386,12 @@ pub fn cut_outcome(c: &CutCase) -> Outcome {
                             }
                         }
                         if let Some(id) = &vid {
-                            if !observed(&victim) && c.cut == CutKind::WriteError {
+                            if !observed(&victim, errs.len()) && c.cut == CutKind::WriteError {
                                 // the failed write is how the socket observes this end
                                 let a = sim.send(s, &[id.clone(), b"probe".to_vec()]);
                                 let _ = sim.run(a).await;
                             }
-                            if observed(&victim) {
+                            if observed(&victim, errs.len()) {
                                 let a = sim.send(s, &[id.clone(), b"to-the-dead".to_vec()]);
                                 match sim.run(a).await {
                                     Ok(Some(Out::Send(Err(_)))) => {}
@@ -364,12 +401,42 @@ pub fn cut_outcome(c: &CutCase) -> Outcome {
                         }
                     }
                     Kind::Pub | Kind::XPub => {
-                        let m = vec![format!("pub-{}", published).into_bytes(), b"x".to_vec()];
-                        let a = sim.send(s, &m);
-                        match sim.run(a).await {
-                            Ok(Some(Out::Send(Ok(())))) => published += 1,
-                            other => fail!(f, format!("C16/{}/{}/publish-fails", who, ck), "{:?}", other.map(|o| o.map(|o| o.err_text().map(|s| s.to_string())))),
+                        // one publish only the healthy subscribers want, and one that also matches
+                        // the victim's first subscription (if it got that far)
+                        let vtopic: Option<Vec<u8>> = if admitted && ends.first().map(|e| *e <= pos).unwrap_or(false) {
+                            let lens = &c.victim_msgs[0];
+                            Some(if kind == Kind::Pub { vec![b'v'; lens.first().copied().unwrap_or(0).min(3)] } else { wire_and_expect(kind, 99, 0, lens, false).0[0][1..].to_vec() })
+                        } else {
+                            None
+                        };
+                        let mut ms = vec![vec![format!("pub-{}", published).into_bytes(), b"x".to_vec()]];
+                        if let Some(t) = vtopic {
+                            let mut first = t;
+                            first.extend_from_slice(format!("vvvv-{}", published).as_bytes());
+                            ms.push(vec![first, b"y".to_vec()]);
+                            classes.push("publish-matching-the-victims-subscription".into());
                         }
+                        for m in ms {
+                            let was_observed = observed(&victim, errs.len());
+                            let vbefore = victim.lib_traffic_len();
+                            let a = sim.send(s, &m);
+                            match sim.run(a).await {
+                                Ok(Some(Out::Send(Ok(())))) => published += 1,
+                                other => fail!(f, format!("C16/{}/{}/publish-fails", who, ck), "{:?}", other.map(|o| o.map(|o| o.err_text().map(|s| s.to_string())))),
+                            }
+                            if victim.lib_traffic_len() != vbefore {
+                                landed_on_victim += 1;
+                                if was_observed {
+                                    landed_on_victim_after_observed += 1;
+                                }
+                            }
+                        }
+                    }
+                    Kind::Sub => {
+                        // a subscription change is written to every peer: that is how a SUB
+                        // notices a peer whose writes fail
+                        let a = sim.subscribe(s, &format!("t{}", round), true);
+                        let _ = sim.run(a).await;
                     }
                     _ => {}
                 }
@@ -398,7 +465,13 @@ pub fn cut_outcome(c: &CutCase) -> Outcome {
                 }
                 // what is left must be the victim's complete messages, in order
                 let want_v: Vec<Frames> = if admitted { vexpect[..victim_complete].iter().filter_map(|e| e.clone()).collect() } else { vec![] };
-                if rest != want_v {
+                // once a WRITE to the victim has failed the socket lets go of the connection, and
+                // with it of complete messages it had not read yet: then a prefix is enough
+                let prefix_ok = victim.from_lib.failed_writes() > 0 && rest.len() <= want_v.len() && rest[..] == want_v[..rest.len()];
+                if prefix_ok && rest.len() < want_v.len() {
+                    classes.push("victims-unread-messages-dropped-after-a-failed-write".into());
+                }
+                if rest != want_v && !prefix_ok {
                     let sig = if rest.len() > want_v.len() { "incomplete-or-extra-message-surfaced" } else { "victims-complete-message-lost" };
                     fail!(
                         f,
@@ -479,7 +552,7 @@ pub fn cut_outcome(c: &CutCase) -> Outcome {
                 );
             }
             // ---- (d) released
-            if admitted && observed(&victim) {
+            if admitted && observed(&victim, errs.len()) {
                 classes.push("end-observed".into());
                 if !victim.from_lib.writer_dropped() {
                     fail!(
@@ -669,8 +742,11 @@ pub fn enumerated() -> Vec<CutCase> {
     let mut v = vec![];
     for kind in ALL_KINDS {
         for healthy in [1usize, 2] {
-            for cut in [CutKind::Close, CutKind::Reset, CutKind::CloseStillWritable] {
+            for cut in [CutKind::Close, CutKind::Reset, CutKind::CloseStillWritable, CutKind::ProtocolError] {
                 for (_, pos) in position_classes(kind, &msgs) {
+                    if cut == CutKind::ProtocolError && pos < victim_stream(kind, &msgs).1 {
+                        continue;
+                    }
                     for split in [0usize, 64] {
                         v.push(CutCase {
                             kind,
@@ -721,7 +797,7 @@ pub fn gen_cut(s: &mut Src<'_>) -> CutCase {
     CutCase {
         kind,
         healthy: s.range(1, 3),
-        cut: s.pick(&[CutKind::Close, CutKind::Close, CutKind::Reset, CutKind::Reset, CutKind::WriteError, CutKind::CloseStillWritable, CutKind::CloseStillWritable]),
+        cut: s.pick(&[CutKind::Close, CutKind::Close, CutKind::Reset, CutKind::Reset, CutKind::WriteError, CutKind::CloseStillWritable, CutKind::CloseStillWritable, CutKind::ProtocolError]),
         pos: s.below(total + 1),
         victim_msgs,
         split: s.pick(&[0usize, 0, 1, 30, 64, 90, 100]),
@@ -773,10 +849,12 @@ pub fn run(ctx: &Ctx) -> (Report, PropertyMeta) {
     health(&mut report, "cut-inside-handshake", total, 100);
     health(&mut report, "end-observed", total, 300);
     health_abs(&mut report, "write-error-other-than-EPIPE", 300);
+    health_abs(&mut report, "publish-matching-the-victims-subscription", 300);
+    health_abs(&mut report, "cut-protocol-error", 300);
 
     let meta = PropertyMeta {
         level: "fault_enumeration",
-        rule: "every socket type with 1..3 healthy raw peers and one victim whose connection ends at an enumerated / generated byte position of its stream (inside the greeting, between greeting and READY, inside READY, between messages, inside flags / size / body, between frames of a multipart message) by orderly close (EOF; writes fail afterwards, or - as with a TCP FIN - still succeed), reset (read error, writes fail) or write-only failure (writes fail with EPIPE, ECONNRESET, ETIMEDOUT or ECONNABORTED), followed by rounds of healthy-peer traffic and application calls (recv until pending; sends that rotate onto / address the victim; publishes). Oracle: (a) every healthy peer's message is still delivered exactly once in order, publishes reach healthy subscribers, successful sends land on healthy peers, and only the victim's COMPLETE messages surface; (b) recv reports at most one error for the event and the socket always reaches quiescence; (c) once the socket has observed the end (a read returned EOF/error or a write failed) no send fails because it was routed to that peer, and ROUTER send to its identity fails; (d) after observation both connection halves the library held are dropped; a connection that ends during the handshake is never admitted and is released. Real transports: after N connect-handshake-talk-disconnect cycles over TCP and IPC against a long-lived socket of every type the process's open-descriptor count and the runtime's alive-task count are within a constant of their values after 10 cycles. Non-trivial = cut strictly inside a message or inside the handshake; distinct by case".into(),
+        rule: "every socket type with 1..3 healthy raw peers and one victim whose connection ends at an enumerated / generated byte position of its stream (inside the greeting, between greeting and READY, inside READY, between messages, inside flags / size / body, between frames of a multipart message) by orderly close (EOF; writes fail afterwards, or - as with a TCP FIN - still succeed), reset (read error, writes fail), protocol error (the peer stays connected and sends a malformed command at a message boundary) or write-only failure (writes fail with EPIPE, ECONNRESET, ETIMEDOUT or ECONNABORTED), followed by rounds of healthy-peer traffic and application calls (recv until pending; sends that rotate onto / address the victim; REP replies; publishes, including ones matching the victim's subscription; SUB subscription changes). Oracle: (a) every healthy peer's message is still delivered exactly once in order, publishes reach healthy subscribers, successful sends land on healthy peers, and only the victim's COMPLETE messages surface; (b) recv reports at most one error for the event and the socket always reaches quiescence; (c) once the socket has observed the end (a read returned EOF/error or a write failed) no send fails because it was routed to that peer, and ROUTER send to its identity fails; (d) after observation both connection halves the library held are dropped; a connection that ends during the handshake is never admitted and is released. Real transports: after N connect-handshake-talk-disconnect cycles over TCP and IPC against a long-lived socket of every type the process's open-descriptor count and the runtime's alive-task count are within a constant of their values after 10 cycles. Non-trivial = cut strictly inside a message or inside the handshake; distinct by case".into(),
         assumptions: vec![
             "a closed connection is modelled as EOF on reads plus BrokenPipe on writes (a fully closed TCP peer); half-close is not generated".into(),
             "'observed' is measured at the pipe: a read returned the end marker or a write returned the injected error".into(),
